@@ -627,6 +627,30 @@ Proof.
   unfold ser_head. rewrite <- !app_assoc. reflexivity.
 Qed.
 
+(* serialize succeeds ONLY for a depth that fits one byte and a child number that fits four: nothing is ever wrapped or
+   truncated; outside, it refuses (ValueError for the depth, struct.error for the child number) *)
+Lemma serialize_ret_inv nd ap b : serialize nd ap = Ret b -> ser_ok nd.
+Proof.
+  unfold Bip32.serialize, ser_ok. intros H.
+  destruct (negb (is_some (nd_secret pt nd)) && _) in H; [discriminate|].
+  destruct ((0 <=? nd_depth pt nd) && (nd_depth pt nd <? 256)) eqn:D; cbn [bind] in H; [|discriminate].
+  apply andb_true_iff in D. destruct D as [D1 D2]. apply Z.leb_le in D1. apply Z.ltb_lt in D2.
+  unfold pack_BE_L in H.
+  destruct ((0 <=? nd_index pt nd) && (nd_index pt nd <? 2 ^ 32)) eqn:I; cbn [bind] in H; [|discriminate].
+  apply andb_true_iff in I. destruct I as [I1 I2]. apply Z.leb_le in I1. apply Z.ltb_lt in I2.
+  split; split; assumption.
+Qed.
+
+Lemma serialize_refuses_depth nd ap : ~ (0 <= nd_depth pt nd < 256) ->
+  serialize nd ap = Raise E_VALUE \/ serialize nd ap = Raise E_OTHER.
+Proof.
+  intros H. unfold Bip32.serialize.
+  destruct (negb (is_some (nd_secret pt nd)) && _); [right; reflexivity|].
+  replace ((0 <=? nd_depth pt nd) && (nd_depth pt nd <? 256)) with false; [left; reflexivity|].
+  symmetry. apply andb_false_iff. destruct (Z.leb_spec 0 (nd_depth pt nd)) as [L|L]; [right|left; reflexivity].
+  destruct (Z.ltb_spec (nd_depth pt nd) 256) as [U|U]; [exfalso; apply H; split; assumption|reflexivity].
+Qed.
+
 Lemma serialize_default nd : serialize nd None = serialize nd (Some (is_some (nd_secret pt nd))).
 Proof. reflexivity. Qed.
 
@@ -1661,7 +1685,7 @@ Proof.
   unfold electrum_mpk. change (ew_point pt (neuter_ew w)) with (ew_point pt w).
   destruct (match split ch_slash path with
             | [n; fc] => Ret (n, fc) | [n] => Ret (n, [x30]) | _ => Raise E_VALUE end) as [[n fc]|e|] eqn:T.
-  - cbn [bind]. set (offset := from_bytes_32 (dsha256 (n ++ ch_colon :: fc ++ ch_colon :: xy (ew_point pt w)))).
+  - cbn [bind]. set (offset := from_bytes_32 (dsha256 (utf8_latin1 (n ++ ch_colon :: fc ++ [ch_colon]) ++ xy (ew_point pt w)))).
     replace (k =? 0) with false by (symmetry; apply Z.eqb_neq; hlia).
     assert (Q : padd (smul offset pG) (ew_point pt w) = smul ((k + offset) mod order) pG).
     { rewrite HPk, <- smul_add, smul_mod. f_equal. hlia. }
